@@ -438,3 +438,41 @@ def filter_state(ctx, repo):
 
 
 ALL.append(filter_state)
+
+
+# ---------------------------------------------------------------------------
+# PEN-last: a primitive callback that remembers "where the pen is" remembers its END point
+# ---------------------------------------------------------------------------
+def last_point_is_end(ctx, repo):
+    ctx.rule("PEN-last", "in a BasePen subclass, a primitive callback (_moveTo / _lineTo / _curveToOne / _qCurveToOne) that stores one of its point parameters into a pen attribute (the remembered pen position: _lastX/_lastY, _pt, current ...) stores its LAST point parameter, the segment's on-curve end, never a control point", floor=3)
+    n = 0
+    for rel in sorted(repo.rels()):
+        if not (rel.startswith("pens/") or rel in ("svgLib/path/shapes.py",)):
+            continue
+        m = repo.mod(rel)
+        for q, c in sorted(m.classes.items()):
+            for name in ("_moveTo", "_lineTo", "_curveToOne", "_qCurveToOne"):
+                f = c.methods.get(name)
+                if f is None:
+                    continue
+                ps = [a.arg for a in f.node.args.args][1:]
+                if not ps:
+                    continue
+                end = ps[-1]
+                for st in walk_no_nested(f.node):
+                    if not isinstance(st, ast.Assign):
+                        continue
+                    tgts = [t for tg in st.targets for t in (tg.elts if isinstance(tg, (ast.Tuple, ast.List)) else [tg])]
+                    if not tgts or not all(isinstance(t, ast.Attribute) and norm(t.value) == "self" for t in tgts):
+                        continue
+                    src = st.value
+                    if isinstance(src, ast.Name) and src.id in ps:
+                        n += 1
+                        ctx.consult(rel)
+                        ok = src.id == end
+                        ctx.ob("PEN-last", f.where, f"{norm(st)[:60]}", ok, "" if ok else f"the remembered position is the control point {src.id}, not the segment end {end}: the next segment's shorthand / duplicate test is computed from the wrong point")
+    if n < 3:
+        raise AnalysisError(f"PEN-last: {n} remembered-position stores found in primitive callbacks (SVGPathPen confirmed by hand)")
+
+
+ALL.append(last_point_is_end)
